@@ -421,6 +421,16 @@ def run(ctx):
             for chunk in core.split(arg_list, 8):
                 jobs.append(("ebb3", helper, chunk))
     part.merge(core.fan_out(ctx, _chunk, jobs))
+    # the two version-gated helpers of the legacy layer in a row on one port: what the first
+    # learnt about the board must not decide whether the second transmits ("and nothing else")
+    from .c15 import HISTORY_VERSIONS, check_gate_history   # pylint: disable=import-outside-toplevel
+    for first, second in itertools.permutations(("servo_timeout", "queryVoltage"), 2):
+        for ver in HISTORY_VERSIONS:
+            for msg in check_gate_history("same", first, second, ver):
+                part.violation(f"gated_pair:{first}:{second}:{ver}", msg,
+                               {"kind": "gated_pair", "first": first, "second": second,
+                                "version": ver})
+            part.count("gated_pair_histories")
     _cross_and_noport(part, ltab, etab)
     cnt = part.counters
     coverage = {
@@ -500,6 +510,9 @@ def replay(case):
     if _CTX is None:
         _CTX = core.Ctx("quick", 0, 1)
     kind = case["kind"]
+    if kind == "gated_pair":
+        from .c15 import check_gate_history     # pylint: disable=import-outside-toplevel
+        return check_gate_history("same", case["first"], case["second"], case["version"])
     if kind == "table":
         part = core.Part()
         ltab, etab = legacy_table(_CTX), ebb3_table(_CTX)
